@@ -96,6 +96,7 @@ macro_rules! run_history {
         let c: &Case = $c;
         // the model: id -> digest of the last value written; targets the history can address
         let mut model: BTreeMap<u64, String> = BTreeMap::new();
+        let mut gens: BTreeMap<u64, u64> = BTreeMap::new();
         let mut targets: Vec<PlainRef> = b.direct.iter().take(4).chain(b.compressed.iter().take(3)).chain(b.unused.iter().take(2)).map(|&id| PlainRef { id, gen: 0 }).collect();
         let mut promises = Vec::new();
         let bad_stream = b.a_stream.and_then(|id| file.resolver().resolve(PlainRef { id, gen: 0 }).ok());
@@ -107,8 +108,15 @@ macro_rules! run_history {
             match st {
                 Step::Create(v) => {
                     let p = prim(v, &bad_stream);
+                    // now and then look at the numbers the next create may hand out before it does (typed reads of numbers that
+                    // designate nothing yet: whatever they answer must not stick once the number is in use)
+                    if si % 3 == 0 {
+                        let hi = b.snapshot.keys().chain(model.keys()).max().copied().unwrap_or(0) + 1;
+                        let res = file.resolver();
+                        for id in hi..hi + 12 { let _ = res.get::<Primitive>(Ref::new(PlainRef { id, gen: 0 })); let _ = res.resolve(PlainRef { id, gen: 0 }); }
+                    }
                     match file.create(p.clone()) {
-                        Ok(r) => { let r = r.get_ref().get_inner(); model.insert(r.id, digest(&p, &file.resolver())); untouched.remove(&r.id); targets.push(r); }
+                        Ok(r) => { let r = r.get_ref().get_inner(); gens.insert(r.id, r.gen); model.insert(r.id, digest(&p, &file.resolver())); untouched.remove(&r.id); targets.push(r); }
                         Err(e) => fail!("create-error", "step {}: create: {}", si, el(&e)),
                     }
                 }
@@ -119,6 +127,9 @@ macro_rules! run_history {
                         Ok(nr) => {
                             let nr = nr.get_ref().get_inner();
                             if nr.id != r.id { fail!("different-ref-returned", "step {}: update of object {} was redirected to a new object {}", si, r.id, nr.id); }
+                            // the reference handed back for an object keeps its generation from one revision to the next
+                            if let Some(g) = gens.get(&r.id) { if *g != nr.gen { fail!("generation-changed", "step {}: update of object {} hands back generation {}, earlier generation {}", si, r.id, nr.gen, g); } }
+                            gens.insert(r.id, nr.gen);
                             model.insert(r.id, digest(&p, &file.resolver())); untouched.remove(&r.id);
                             if *ti == usize::MAX { bad_target = None; }
                         }
@@ -258,6 +269,20 @@ pub fn bases(seed: u64) -> Vec<Base> {
     }
     for (i, l) in [crate::richdoc::Layout::Classic, crate::richdoc::Layout::XrefStream, crate::richdoc::Layout::Incremental].iter().enumerate() {
         if let Some(b) = make_base(&format!("rich-{}", i), crate::richdoc::write(&crate::richdoc::objects(), *l, if i == 1 { b"junk before the header\n" } else { b"" }), vec![]) { out.push(b); }
+    }
+    // a base with in-use objects of non-zero generation (numbers that were freed and used again before)
+    {
+        use crate::mkpdf::{dict, name, rf, Obj, W};
+        let mut w = W::new(b"", "1.4");
+        w.free(0, 0, 65535);
+        w.obj(1, 0, &dict(vec![("Type", name("Catalog")), ("Pages", rf(2))]));
+        w.obj(2, 0, &dict(vec![("Type", name("Pages")), ("Count", Obj::Int(1)), ("Kids", crate::mkpdf::arr(vec![rf(3)]))]));
+        w.obj(3, 0, &dict(vec![("Type", name("Page")), ("Parent", rf(2)), ("MediaBox", crate::mkpdf::ints(&[0, 0, 10, 10]))]));
+        w.obj(4, 1, &dict(vec![("Reused", Obj::Int(1))]));
+        w.obj(5, 7, &dict(vec![("Reused", Obj::Int(7)), ("Other", Obj::Ref(4, 1))]));
+        w.obj(6, 0, &dict(vec![("Plain", Obj::Bool(true))]));
+        w.xref_table(vec![(b"Root".to_vec(), rf(1))], 7, &[]);
+        if let Some(b) = make_base("generations-1-and-7", w.buf, vec![]) { out.push(b); }
     }
     // a base whose object stream has more than 256 members (the index field of a rewritten cross-reference stream needs two bytes)
     {
